@@ -488,7 +488,11 @@ fn rand_text_file(rng: &mut Rng) -> Vec<u8> {
                     let n = rng.range(40, 140) as usize;
                     out.extend(std::iter::repeat_n(b'x', n));
                 }
-                _ => out.extend_from_slice(rng.pick(&["ab", "Hello", "x y", "q", "Z9"]).as_bytes()),
+                // (control characters are text like any other: Ctrl-Z, TAB, form feed)
+                _ => out.extend_from_slice(
+                    rng.pick(&["ab", "Hello", "x y", "q", "Z9", "ab", "Hello", "q", "a\u{1a}b", "t\u{9}b", "\u{c}"])
+                        .as_bytes(),
+                ),
             }
             if rng.chance(1, 5) {
                 out.push(b' ');
@@ -702,7 +706,7 @@ fn gen_roundtrip_program(rng: &mut Rng, exists: &mut BTreeSet<String>) -> Scenar
                     rng.pick(&["h\u{e9}llo", "\u{c8}", "na\u{ef}ve \u{fc}", "\u{cd}\u{cd}\u{cd}", "a\u{df}"]).to_string(),
                 ))),
                 _ => items.push(PItem::E(Expr::Str(
-                    rng.pick(&["ab", "Hello", "q", "Z9", "x y", "end"]).to_string(),
+                    rng.pick(&["ab", "Hello", "q", "Z9", "x y", "end", "ab", "q", "c\u{1a}z"]).to_string(),
                 ))),
             }
         }
